@@ -39,7 +39,7 @@ theorem alookup_split {β : Type} [DecidableEq β] (bl : List (Nat × β)) (aid 
       · subst hj; simp [hk]
       · simp only [hj, if_false]; exact ih
 
-theorem alookup_of_mem_nodup {κ β : Type} [DecidableEq κ] [DecidableEq β] {k : κ} {v : β} {l : List (κ × β)}
+theorem alookup_of_mem_nodup_map {κ β : Type} [DecidableEq κ] [DecidableEq β] {k : κ} {v : β} {l : List (κ × β)}
     (hnd : (l.map Prod.fst).Nodup) (h : (k, v) ∈ l) : alookup k l = some v := by
   induction l with
   | nil => simp at h
@@ -63,7 +63,7 @@ def ids (p : Part τ) : List Nat := p.blocks.map Prod.fst
 
 theorem get_of_mem {p : Part τ} (hnd : p.ids.Nodup) {i : Nat} {B : List τ} (h : (i, B) ∈ p.blocks) :
     p.get i = B := by
-  unfold get; rw [alookup_of_mem_nodup hnd h]; rfl
+  unfold get; rw [alookup_of_mem_nodup_map hnd h]; rfl
 
 theorem get_mem_of_ids {p : Part τ} {i : Nat} (h : i ∈ p.ids) : (i, p.get i) ∈ p.blocks := by
   unfold get
